@@ -471,3 +471,13 @@ func init() {
 		},
 	})
 }
+
+func init() {
+	replayDrivers = append(replayDrivers, replayDriver{
+		match: func(n string) bool { return strings.Contains(n, "copyDBIntoSQLite#") && strings.Contains(n, "C15.") },
+		run: func(r *Report, o *Obligation, sr *SolveResult) ReplayResult {
+			out, conf := goReplay(r, "cmd/keymasterd", "keymasterd_storage_replay_test.go", "TestVerifReplayCacheMirrorsDeletions", map[string]string{})
+			return ReplayResult{Confirmed: conf, Summary: replaySummary(out), Output: truncate(out, 4000), Driver: "TestVerifReplayCacheMirrorsDeletions (history of the model: a user and a signed record are deleted in the primary between two completed synchronisations)"}
+		},
+	})
+}
